@@ -93,4 +93,35 @@ PROPS["C20"] = {
     "assumptions": ["fmt.Printf writes its operands verbatim", "strings reach printInfo only through file.Info"],
 }
 
+def nt_c17(lhs, impl):
+    data = _hexbytes(lhs.split(" ")[1])
+    t = data.strip()
+    hexd = [c for c in t if chr(c) in "0123456789abcdefABCDEF"]
+    ver = chr(hexd[12]) if len(hexd) == 32 else "?"
+    form = {36: "canon", 38: "braced", 45: "urn", 32: "bare"}.get(len(t), "len%d" % min(len(t), 50))
+    return (form, ver, impl[:1], len(t) != len(data), any(65 <= c <= 70 for c in t))
+
+PROPS["C17"] = {
+    "modules": ["WhatIs.Props.C17"],
+    "theorems": ["WhatIs.C17.parse_eq_spec", "WhatIs.C17.parse_is_uuid", "WhatIs.C17.description_spec",
+                 "WhatIs.C17.time_v1_spec", "WhatIs.C17.time_v6_spec", "WhatIs.C17.time_v7_spec", "WhatIs.C17.epoch_spec",
+                 "WhatIs.C17.fields_spec", "WhatIs.C17.civil_roundtrip"],
+    "facts": {},
+    "nontrivial": nt_c17,
+    "rule": "every version nibble x variant bits x boundary timestamps (0, 1, 1970-1 tick, 1970, 2038 boundary, max, RFC vectors) "
+            "x textual forms (canonical, upper, mixed, braced, URN in three cases, bare hex) x surrounding whitespace incl. Unicode "
+            "spaces; Nil/Max and one-bit neighbours; RFC 9562 Appendix A vectors; near-misses (lengths, hyphen positions, non-hex, "
+            "wrong brackets, doubled). distinct non-trivial = distinct (form/length, version nibble, accepted?, whitespace?, upper-case?)",
+    "design_ref": "DESIGN.md §5 C17",
+    "level_text": "Proof: for ALL byte strings the model of uuid.Parse(+brace check) equals the four-template spec; for ALL 2^128 values "
+                  "description/raw v1,v6,v7 timestamps/node/clock sequence/domain/id equal the RFC 9562 bit fields; the calendar conversion "
+                  "is an exact inverse for every day number. Tied to the code by a differential run over versions x forms x boundaries.",
+    "level_note": "Trusted: Lean kernel; model of google/uuid v1.6.0 functions and of time.Format for the one layout used (validated by the "
+                  "correspondence and by read-back through the inverse calendar function in the oracle); strings.TrimSpace model.",
+    "technique": "Lean 4 proof (bit-field arithmetic for all 2^128 values, template matcher equivalence, calendar inverse) + differential correspondence",
+    "trusted_base": ["models of google/uuid Parse/Time/UnixTime/NodeID/ClockSequence/Domain/ID, strings.TrimSpace, time.Format layout "
+                     "'2006-01-02 15:04:05.9999999' (validated by correspondence)"],
+    "assumptions": ["google/uuid v1.6.0 and time.Format behave as modelled outside the explored inputs"],
+}
+
 NOT_CLAIMED = {}
